@@ -104,6 +104,15 @@ impl SendDispatcher<'_> {
     }
 }
 
+#[cfg(feature = "verif-hooks")]
+impl SendDispatcher<'_> {
+    /// Verification hook, read-only: for every stage, the number of boxed
+    /// systems in every group, i.e. the shape of the plan that is executed.
+    pub fn verif_shape(&self) -> Vec<Vec<usize>> {
+        self.stages.iter().map(Stage::verif_group_sizes).collect()
+    }
+}
+
 impl RunNow<'_> for SendDispatcher<'_> {
     fn run_now(&mut self, world: &World) {
         self.dispatch(world);
